@@ -106,6 +106,7 @@ def run(case, W):
         outlen[st] = cur_len
         started[st] = cur_started
     exp_hold, windows = E.hold_timeline(t)
+    z = E.hold_zones(windows, hold, n)
     mid_ev = mid_line = 0
     ri = 0
     for st in range(n):
@@ -130,11 +131,15 @@ def run(case, W):
                 return Result(violation=("busy-when-quiescent", "after step %d cat_service returned OK with no partial line but cat_is_busy says BUSY" % st))
         else:
             return Result(violation=("busy-value", "cat_is_busy returned %d" % busy[st]))
-        want = S.S_HOLD if exp_hold[st] else S.S_OK
-        if hold[st] != want:
-            return Result(violation=("is-hold", "after step %d cat_is_hold is %d, expected %d (hold windows %r)" % (st, hold[st], want, windows)))
+        if (z[st] == "H" and hold[st] != S.S_HOLD) or (z[st] == "O" and hold[st] != S.S_OK):
+            return Result(violation=("is-hold", "after step %d cat_is_hold is %d, expected %s (hold windows %r)" % (st, hold[st], "HOLD" if z[st] == "H" else "OK", windows)))
+    if n and z[n - 1] == "?" and hold[n - 1] == S.S_HOLD:
+        return Result(violation=("is-hold", "the run ends with cat_is_hold still HOLD although every hold was released (hold windows %r)" % (windows,)))
     # queries made between two service calls (pre-actions of step st): judged with the state after step st-1;
     # a release request made just before does not end the suspension until the parser has acted on it
+    v, _sp = E.judge_hold_api(t, z, n)
+    if v:
+        return Result(violation=(v[0], v[1] + " (hold windows %r)" % (windows,)))
     nq = 0
     for a in t.apis:
         if a.insvc or a.name not in ("ishold", "isbusy"):
@@ -142,11 +147,7 @@ def run(case, W):
         prev = a.step - 1
         if a.name == "ishold":
             nq += 1
-            want = S.S_HOLD if (prev >= 0 and prev < n and exp_hold[prev]) else S.S_OK
-            if a.step >= n:
-                continue
-            if a.result != want:
-                return Result(violation=("is-hold", "cat_is_hold queried before service call %d returned %d, expected %d (hold windows %r)" % (a.step, a.result, want, windows)))
+            continue          # (judged below, together with the release requests of the same gap)
         else:
             if prev < 0 or prev >= n:
                 continue
